@@ -445,6 +445,7 @@ func checkC07(c *Ctx) {
 	r.Count("paths enumerated", sm.an.PathsSeen)
 	c.c07Mem(sm)
 	c.c07File(sm)
+	c.c07Latest()
 }
 
 func pkgFuncs(p *eng.Prog, rel string) []*ssa.Function {
@@ -472,15 +473,19 @@ func isIncrementOf(v ssa.Value, f *types.Var) bool {
 func (c *Ctx) c07Mem(sm *storeModel) {
 	r, p := c.R, c.P
 	fLast := p.Field("pkg/storage/mem", "mbox", "last")
-	fFirst := p.Field("pkg/storage/mem", "mbox", "first")
+	fFirst := p.OptField("pkg/storage/mem", "mbox", "first") // eviction cursor, if the store keeps one
 	fMsgs := p.Field("pkg/storage/mem", "mbox", "messages")
 	fID := p.Field("pkg/storage/mem", "Message", "id")
 	withMailbox := p.Method("pkg/storage/mem", "Store", "withMailbox")
-	if fLast == nil || fFirst == nil || fMsgs == nil || fID == nil || withMailbox == nil {
+	if fLast == nil || fMsgs == nil || fID == nil || withMailbox == nil {
 		return
 	}
 	fns := pkgFuncs(p, "pkg/storage/mem")
-	for _, fld := range []*types.Var{fLast, fFirst} {
+	counters := []*types.Var{fLast}
+	if fFirst != nil {
+		counters = append(counters, fFirst)
+	}
+	for _, fld := range counters {
 		sts := eng.StoresToField(fns, fld)
 		cons := "mem.mbox." + fld.Name()
 		if len(sts) != 1 {
@@ -690,4 +695,105 @@ func (c *Ctx) c07File(sm *storeModel) {
 		}
 	})
 	r.Floor("C07/ONLY-NAMED", "raw-file unlinks in file removeMessage", n, 1)
+}
+
+// c07Latest: what the "latest" id resolves to must be computed from the live message
+// container alone. The id counters of a mailbox (integer fields of its struct) do not shrink
+// when the newest message is removed, so an answer derived from them names a dead message
+// while older ones are still there.
+func (c *Ctx) c07Latest() {
+	r, p := c.R, c.P
+	r.Rule("C07/LATEST", "in each store's GetMessage the code dominated by the `id == \"latest\"` edge (callees and closures included) reads no integer field of the mailbox struct: 'latest' is selected from the live messages, not derived from the id counters")
+	n := 0
+	for _, rel := range []string{"pkg/storage/mem", "pkg/storage/file"} {
+		get := p.Method(rel, "Store", "GetMessage")
+		mboxT := p.Named(rel, "mbox")
+		if get == nil || mboxT == nil {
+			continue
+		}
+		st, ok := mboxT.Underlying().(*types.Struct)
+		if !ok {
+			continue
+		}
+		counters := map[*types.Var]bool{}
+		for i := 0; i < st.NumFields(); i++ {
+			if b, ok := st.Field(i).Type().Underlying().(*types.Basic); ok && b.Info()&types.IsInteger != 0 {
+				counters[st.Field(i)] = true
+			}
+		}
+		var fns []*ssa.Function
+		for fn := range p.SyncReach(get) {
+			if eng.FuncPkgPath(fn) == eng.Mod+"/"+rel {
+				fns = append(fns, fn)
+			}
+		}
+		sortFuncs(fns)
+		for _, fn := range fns {
+			for _, b := range fn.Blocks {
+				for k := 0; k < len(b.Succs) && len(b.Succs) == 2; k++ {
+					er, ok := eng.EdgeRel(b, k)
+					if !ok || er.Op != token.EQL {
+						continue
+					}
+					sx, okx := eng.ConstString(er.X)
+					sy, oky := eng.ConstString(er.Y)
+					if !(okx && sx == "latest") && !(oky && sy == "latest") {
+						continue
+					}
+					n++
+					cons := rel[strings.LastIndex(rel, "/")+1:] + ":" + shortFn(fn)
+					// region: blocks dominated by the edge, plus everything they call or create
+					region := map[*ssa.Function]bool{}
+					var bad []string
+					visitInstr := func(in ssa.Instruction) {
+						if fa, ok := in.(*ssa.FieldAddr); ok {
+							if f := eng.FieldOfAddr(fa); f != nil && (counters[f] || counters[f.Origin()]) {
+								bad = append(bad, "mbox."+f.Name()+" at "+p.InstrPos(in))
+							}
+						}
+					}
+					var addFn func(g *ssa.Function)
+					addFn = func(g *ssa.Function) {
+						if g == nil || region[g] || eng.FuncPkgPath(g) != eng.Mod+"/"+rel || len(g.Blocks) == 0 {
+							return
+						}
+						for h := range p.SyncReach(g) {
+							if eng.FuncPkgPath(h) == eng.Mod+"/"+rel && !region[h] {
+								region[h] = true
+								eng.EachInstr(h, visitInstr)
+							}
+						}
+					}
+					for _, rb := range fn.Blocks {
+						if !eng.EdgeDominates(b, k, rb) {
+							continue
+						}
+						for _, in := range rb.Instrs {
+							visitInstr(in)
+							switch x := in.(type) {
+							case *ssa.Call:
+								addFn(eng.StaticCallee(x.Common()))
+								for _, a := range x.Call.Args {
+									if mc, ok := a.(*ssa.MakeClosure); ok {
+										addFn(mc.Fn.(*ssa.Function))
+									}
+								}
+							case *ssa.Defer:
+								addFn(eng.StaticCallee(x.Common()))
+							case *ssa.MakeClosure:
+								addFn(x.Fn.(*ssa.Function))
+							}
+						}
+					}
+					sort.Strings(bad)
+					if len(bad) > 0 {
+						r.Bad("C07/LATEST", cons, p.InstrPos(eng.IfOf(b)), "the 'latest' branch reads the mailbox id counter (%s): after the newest message is removed the counter still names it, so 'latest' reports not-found (or a stale message) although older messages are live", strings.Join(bad, ", "))
+					} else {
+						r.Ok("C07/LATEST", cons, p.InstrPos(eng.IfOf(b)), "the 'latest' branch and its callees (%d functions) read no mailbox id counter", len(region))
+					}
+				}
+			}
+		}
+	}
+	r.Floor("C07/LATEST", "branches on id == \"latest\" in the stores", n, 1)
 }
